@@ -63,7 +63,7 @@ example : tmpName tmpPathParts "m.prom".toList 1 23 = "m.prom.1.23".toList := by
 /-! ### one writer -/
 
 /-- AT EVERY INSTANT of every call — fault-free or with any single fault of any class at any effect (open, each
-collector, each piece of the write, close/flush, rename), cut after any number `m` of effects (this is also the state a
+collector, the final encoding, each piece of the write, close/flush, rename), cut after any number `m` of effects (this is also the state a
 reader sees, and the state left by a kill) — the target holds its complete previous content (`none` = it did not exist)
 or the complete new exposition.  Never anything else: when `P.new` happens to be empty the empty file IS the complete
 new exposition, and it appears only through the rename. -/
@@ -209,11 +209,11 @@ def exP : Params :=
 def exC : Cfg := ⟨[("m.prom".toList, [9, 9]), ("other".toList, [7]), (exP.tmp, [8])], {}⟩
 
 example : exP.tmp ≠ exP.target := tmp_ne_target _ _ _
-example : (body exP).length = 8 := by decide
+example : (body exP).length = 9 := by decide
 example : (exec (normalRun exP) exC).fs = [("m.prom".toList, [1, 2, 3, 4, 5]), ("other".toList, [7])] := by decide
-/-- after 5 effects (open, two collectors, two pieces) the target is still old and tmp holds only the flushed piece -/
-example : (exec ((normalRun exP).take 5) exC).fs.get exP.target = some [9, 9] ∧
-    (exec ((normalRun exP).take 5) exC).fs.get exP.tmp = some [1, 2] := by decide
+/-- after 6 effects (open, two collectors, encode, two pieces) the target is still old and tmp holds only the flushed piece -/
+example : (exec ((normalRun exP).take 6) exC).fs.get exP.target = some [9, 9] ∧
+    (exec ((normalRun exP).take 6) exC).fs.get exP.tmp = some [1, 2] := by decide
 /-- a collector (effect 2) raises ValueError: handler runs, everything as before, the caller sees the exception -/
 example : (exec (faultedRun exP ⟨2, ⟨.valueError, 77⟩, 0⟩) exC).fs = [("m.prom".toList, [9, 9]), ("other".toList, [7])]
     ∧ outcome exP ⟨2, ⟨.valueError, 77⟩, 0⟩ = .error ⟨.valueError, 77⟩ := ⟨by decide, by rfl⟩
@@ -227,7 +227,7 @@ example : exP.tmp ≠ exP2.tmp := tmp_names_distinct _ _ _ _ _ (by decide)
 example : Interleave (normalRun exP) (normalRun exP2) (merge [true, false, false, true, false] (normalRun exP) (normalRun exP2)) :=
   merge_interleave _ _ _
 /-- writer 2 renames in the middle of writer 1's call; writer 1's rename comes last and wins -/
-example : (exec2 (merge [true, false, false, true, false, false, false] (normalRun exP) (normalRun exP2))
+example : (exec2 (merge [true, false, false, true, false, false, false, false] (normalRun exP) (normalRun exP2))
     ⟨exC.fs, {}, {}⟩).fs = [("m.prom".toList, [1, 2, 3, 4, 5]), ("other".toList, [7])] := by decide
 
 end PromVerif.Props.C18
